@@ -560,6 +560,47 @@ def desugar_enumerate_loops(ft, ads):
         ads.append({"rule": "D14", "what": f"{n} `for (i, x) in e.enumerate()` loop(s) desugared to an explicit usize counter"})
 
 
+def rewrite_mut_self(ft, ads):
+    """D16: `fn f(mut self, ..) { BODY }` (unsupported by Verus) becomes `fn f(self, ..) { let mut d16_self = self; BODY' }`
+    where BODY' is BODY with every `self` token replaced by `d16_self` — a local rebinding, same moves, same mutations."""
+    fnk, name, po, pc, body = fn_parts(ft)
+    sig = ft.sig
+    if body is None:
+        return
+    # other `mut NAME: T` parameters: drop `mut`, shadow with `let mut NAME = NAME;`
+    muts = []
+    depth = 0
+    for k in range(po + 1, pc):
+        if sig[k].text in OPEN:
+            depth += 1
+        elif sig[k].text in CLOSE:
+            depth -= 1
+        elif depth == 0 and sig[k].text == "mut" and sig[k + 1].kind == "ident" and sig[k + 1].text != "self" and sig[k + 2].text == ":" \
+                and (sig[k - 1].text in ("(", ",")):
+            muts.append(k)
+    if muts:
+        for k in muts:
+            ft.edits.append((sig[k].s, sig[k + 1].s - sig[k].s, ""))
+        ft.edits.append((sig[body].e, 0, "".join(f" let mut {sig[k + 1].text} = {sig[k + 1].text};" for k in muts)))
+        names = [sig[k + 1].text for k in muts]
+        ft.apply_edits()
+        ft.relex()
+        ads.append({"rule": "D16", "what": f"`mut` parameter(s) {names} rebound by a shadowing `let mut`"})
+        fnk, name, po, pc, body = fn_parts(ft)
+        sig = ft.sig
+    if not (sig[po + 1].text == "mut" and sig[po + 2].text == "self"):
+        return
+    bclose = match_close(sig, body)
+    for k in range(body + 1, bclose):
+        if sig[k].kind == "ident" and sig[k].text == "self":
+            ft.edits.append((sig[k].s, 4, "d16_self"))
+    ft.edits.append((sig[body].e, 0, " let mut d16_self = self;"))
+    ft.edits.append((sig[po + 1].s, sig[po + 2].s - sig[po + 1].s, ""))
+    ft.apply_edits()
+    ft.relex()
+    ads.append({"rule": "D16", "what": "`mut self` parameter rebound as a local (`let mut d16_self = self;`), body uses d16_self"})
+
+
 def adapt_function(text, where, subs, report):
     ft = FnText(text, where)
     ft.relex()
@@ -567,6 +608,8 @@ def adapt_function(text, where, subs, report):
     normalise_bool_assign(ft, ads)
     split_or_guard_arms(ft, ads)
     desugar_enumerate_loops(ft, ads)
+    if 'fn __fragment' not in text:
+        rewrite_mut_self(ft, ads)
     # nested fn items with their own contracts (D3 applied recursively)
     for sd in subs:
         if sd["kw"] != "nested":
@@ -701,6 +744,31 @@ def adapt_function(text, where, subs, report):
         ft.apply_edits()
         ft.relex()
         ads.append({"rule": "D6", "what": f"{n} format! call(s) rewritten to fmt_concat"})
+
+    # D15: explicit type on a `let` whose type rustc can only infer from later (executable) uses, which the
+    # spliced invariants precede:  `.lettype NAME as TYPE`   `let mut NAME = e;` -> `let mut NAME: TYPE = e;`
+    for sd in subs:
+        if sd["kw"] != "lettype":
+            continue
+        m = re.match(r"\s*([A-Za-z_][A-Za-z0-9_]*)\s+as\s+(.+)$", sd["args"])
+        if not m:
+            raise ExtractError("template", f"{where}: bad .lettype directive")
+        nm, ty = m.group(1), m.group(2).strip()
+        sig = ft.sig
+        hits = []
+        for k, t in enumerate(sig):
+            if t.kind == "ident" and t.text == "let":
+                j = k + 1
+                if sig[j].text == "mut":
+                    j += 1
+                if sig[j].text == nm and sig[j + 1].text == "=":
+                    hits.append(j)
+        if len(hits) != 1:
+            raise ExtractError("lost-anchor", f"{where}: .lettype `{nm}` matches {len(hits)} let statements")
+        ft.edits.append((sig[hits[0]].e, 0, f": {ty}"))
+        ft.apply_edits()
+        ft.relex()
+        ads.append({"rule": "D15", "what": f"type annotation `{nm}: {ty}` added to a let (no change of behaviour)"})
 
     # closures (D3)
     for sd in subs:
